@@ -171,3 +171,102 @@ for _v in ("py", "cy"):
         calls={"sb.idxToDate": ("contract", SB + "::Scoreboard.idxToDate#" + _v),
                "sb.dateToIdx": ("contract", SB + "::Scoreboard.dateToIdx#" + _v)},
     )
+
+# ---------------------------------------------------------------------------------------------
+# collectIntervals: run-length scan. Soundness of every reported interval is proved through the loop
+# invariant + an assertion contract at the single `intervals.append` site; completeness ("every maximal run
+# is reported") is the bounded stand-in (see bounded/c17_scan.py).
+
+P = "app(predicate, self.sb[{j}])"
+_scan_inv = [
+    ("idx-range", "startIdx <= idx and startIdx >= 0"),
+    ("duration", "duration >= 0 and duration <= idx - startIdx"),
+    ("sentinel", "implies(duration == 0, start == 0)"),
+    ("run-start", "implies(duration > 0, start == idx - duration)"),
+    ("run", "implies(duration > 0, forall(j, idx - duration, idx, " + P.format(j="j") + "))"),
+    ("left-maximal", "implies(duration > 0 and idx - duration > startIdx, not " + P.format(j="idx - duration - 1") + ")"),
+    ("gap", "implies(duration == 0 and idx > startIdx and idx <= endIdx, not " + P.format(j="idx - 1") + ")"),
+]
+_scan_site = [
+    # taken from the property: a reported interval is a maximal run of the requested minimum length,
+    # clipped to the query window [sIdx, eIdx]
+    ("is-run", "forall(j, start, current_idx, " + P.format(j="j") + ")"),
+    ("min-length", "idx - (idx - duration) >= minDurationSlots"),
+    ("clip-start", "start == ite(idx - duration < sIdx, sIdx, idx - duration)"),
+    ("clip-end", "current_idx == ite(idx > eIdx, eIdx, idx)"),
+    ("right-maximal", "idx >= endIdx or not " + P.format(j="idx")),
+    ("non-empty", "start < current_idx"),
+]
+_scan_params = {"self": Ref("Scoreboard"), "iv": Ref("TimeInterval"), "minDuration": Real,
+                "predicate": Fn([Slot], Bool)}
+_scan_locals = {"intervals": List(Ref("TimeInterval")), "val": Slot}
+
+contract(
+    SB + "::Scoreboard.collectIntervals", variant="py", props=["C17", "C13"],
+    params=_scan_params, ret=List(Ref("TimeInterval")),
+    consts={"_USE_CYTHON": False},
+    requires=[("wf", "SBwf(self)"), ("min", "minDuration >= 0")],
+    ensures=[],
+    calls={
+        "self.dateToIdx": ("contract", SB + "::Scoreboard.dateToIdx#py"),
+        "self.idxToDate": ("contract", SB + "::Scoreboard.idxToDate#py"),
+        "TimeInterval": ("new", "TimeInterval", ["start", "end"]),
+        "intervals.append": ("check", _scan_site, None),
+    },
+    loops={0: {"inv": _scan_inv, "decreases": "endIdx + 1 - idx"}},
+    locals=_scan_locals,
+)
+
+contract(
+    CY + "::collect_intervals_fast", props=["C17", "C13"], cython=True,
+    params={"sb": List(Slot), "start_idx": Int, "end_idx": Int, "s_idx": Int, "e_idx": Int,
+            "min_duration_slots": Int, "size": Int, "start_date": DT, "resolution": Int,
+            "predicate": Fn([Slot], Bool), "interval_class": Ref("type")},
+    ret=List(Ref("TimeInterval")),
+    requires=[("start", "start_idx >= 0"), ("res", "resolution >= 1"), ("size", "size >= 1 and len(sb) == size"),
+              ("end", "end_idx <= size - 1"), ("window", "0 <= s_idx and e_idx <= size - 1"),
+              ("c-horizon", f"size * resolution <= {I32}")],
+    ensures=[],
+    calls={"interval_class": ("new", "TimeInterval", ["start", "end"]),
+           "intervals.append": ("check", [
+               ("is-run", "forall(j, start, current_idx, app(predicate, sb[j]))"),
+               ("min-length", "duration >= min_duration_slots"),
+               ("clip-start", "start == ite(idx - duration < s_idx, s_idx, idx - duration)"),
+               ("clip-end", "current_idx == ite(idx > e_idx, e_idx, idx)"),
+               ("right-maximal", "idx >= end_idx or not app(predicate, sb[idx])"),
+               ("non-empty", "start < current_idx"),
+               ("start-time", "secs(start_dt) == secs(start_date) + start * resolution"),
+               ("end-time", "secs(end_dt) == secs(start_date) + current_idx * resolution"),
+           ], None)},
+    loops={0: {"inv": [
+        ("idx-range", "start_idx <= idx and start_idx >= 0"),
+        ("duration", "duration >= 0 and duration <= idx - start_idx"),
+        ("sentinel", "implies(duration == 0, start == 0)"),
+        ("run-start", "implies(duration > 0, start == idx - duration)"),
+        ("run", "implies(duration > 0, forall(j, idx - duration, idx, app(predicate, sb[j])))"),
+        ("left-maximal", "implies(duration > 0 and idx - duration > start_idx, not app(predicate, sb[idx - duration - 1]))"),
+        ("gap", "implies(duration == 0 and idx > start_idx and idx <= end_idx, not app(predicate, sb[idx - 1]))"),
+    ], "decreases": "end_idx + 1 - idx"}},
+    locals={"intervals": List(Ref("TimeInterval")), "val": Slot},
+)
+
+contract(
+    SB + "::Scoreboard.collectIntervals", variant="cy", props=["C17", "C13"],
+    params=_scan_params, ret=List(Ref("TimeInterval")),
+    consts={"_USE_CYTHON": True, "TimeInterval": classref("TimeInterval")},
+    requires=[("wf", "SBwf(self)"), ("min", "minDuration >= 0"),
+              ("c-horizon", f"self.size * self.resolution <= {I32} and self.resolution <= {I32} and self.size <= {I32}"),
+              ("c-min", f"minDuration / self.resolution <= {I32}"),
+              ("usec", "isint((secs(iv.start) - secs(self.startDate)) * 1000000) and "
+                       "isint((secs(iv.end) - secs(self.startDate)) * 1000000)"),
+              ("c-range", f"-{I32} <= (secs(iv.start) - secs(self.startDate)) / self.resolution and "
+                          f"(secs(iv.start) - secs(self.startDate)) / self.resolution <= {I32} and "
+                          f"-{I32} <= (secs(iv.end) - secs(self.startDate)) / self.resolution and "
+                          f"(secs(iv.end) - secs(self.startDate)) / self.resolution <= {I32}")],
+    ensures=[],
+    calls={
+        "self.dateToIdx": ("contract", SB + "::Scoreboard.dateToIdx#cy"),
+        "collect_intervals_fast": ("contract", CY + "::collect_intervals_fast"),
+    },
+    locals=_scan_locals,
+)
